@@ -161,8 +161,8 @@ class Pairs(Engine):
         app.boot()
         from dashlive.server.manifests import manifest_map
         tpls = sorted(n for n, m in manifest_map.items() if "live" in m.supported_modes() and "segmentTimeline" in m.features)
-        delta = st.one_of(st.integers(1000, 4 * 10**6), st.integers(10**6, 60 * 10**6), st.integers(10**6, 3600 * 10**6),
-                          st.integers(10**6, 3 * 86400 * 10**6))
+        delta = st.one_of(st.integers(1000, 4 * 10**6), st.integers(2 * 10**6, 60 * 10**6), st.integers(2 * 10**6, 30 * 10**6),
+                          st.integers(10**6, 3600 * 10**6), st.integers(10**6, 3 * 86400 * 10**6))
         return st.fixed_dictionaries({
             "stream": st.one_of(st.sampled_from(["bbb", "tears"]), st.builds(lambda sp: {"synth": sp}, synth.stream_specs(max_segments=8))),
             "template": st.sampled_from(tpls), "opts": strategies.live_option_vector(with_events=False),
